@@ -47,6 +47,12 @@ class Tr:
     def __init__(self, env, consts):
         self.env, self.consts = dict(env), consts
 
+    def bex(self, n):
+        """an expression in a boolean position: a parameter whose truthiness is a model parameter"""
+        if isinstance(n, ast.Name) and ('truth:' + n.id) in self.env:
+            return self.env['truth:' + n.id]
+        return self.ex(n)
+
     def ex(self, n):
         if isinstance(n, ast.Constant):
             if isinstance(n.value, bool):
@@ -68,10 +74,23 @@ class Tr:
         if isinstance(n, ast.UnaryOp) and isinstance(n.op, ast.USub):
             return '(- %s)' % self.ex(n.operand)
         if isinstance(n, ast.UnaryOp) and isinstance(n.op, ast.Not):
-            return '(negb %s)' % self.ex(n.operand)
+            return '(negb %s)' % self.bex(n.operand)
         if isinstance(n, ast.BoolOp):
             op = '&&' if isinstance(n.op, ast.And) else '||'
-            return '(' + (' %s ' % op).join(self.ex(v) for v in n.values) + ')'
+            return '(' + (' %s ' % op).join(self.bex(v) for v in n.values) + ')'
+        if (isinstance(n, ast.Compare) and len(n.ops) == 1 and isinstance(n.ops[0], (ast.Is, ast.IsNot))
+                and isinstance(n.comparators[0], ast.Constant) and n.comparators[0].value is None
+                and isinstance(n.left, ast.Name) and ('none:' + n.left.id) in self.env):
+            v = self.env['none:' + n.left.id]
+            return v if isinstance(n.ops[0], ast.Is) else '(negb %s)' % v
+        if (isinstance(n, ast.Call) and isinstance(n.func, ast.Attribute) and n.func.attr == 'floor' and isinstance(n.func.value, ast.Name)
+                and n.func.value.id == 'math' and len(n.args) == 1 and isinstance(n.args[0], ast.BinOp) and isinstance(n.args[0].op, ast.Div)):
+            # math.floor(a / b): float division, exact for |a| < 2^53 - read as integer floor division (stated in the obligation)
+            return '(Z.div %s %s)' % (self.ex(n.args[0].left), self.ex(n.args[0].right))
+        if isinstance(n, ast.BinOp) and isinstance(n.op, ast.FloorDiv):
+            return '(Z.div %s %s)' % (self.ex(n.left), self.ex(n.right))
+        if isinstance(n, ast.IfExp):
+            return '(if %s then %s else %s)' % (self.bex(n.test), self.ex(n.body), self.ex(n.orelse))
         if isinstance(n, ast.Compare) and len(n.ops) > 1:
             # a < b <= c  ==  (a < b) and (b <= c)   (operands here are pure, so evaluating b twice is harmless)
             parts, left = [], n.left
@@ -239,6 +258,61 @@ def tr_rgb(tree):
     return out
 
 
+def find_guard(fn, returns_none_pair=False, must_mention=('start', 'end')):
+    """the test of the first top-level `if <test>: return` (or `return (None, None)`) of a method, with the statements before it"""
+    body = strip_doc(fn.body)
+    for i, st in enumerate(body):
+        if isinstance(st, ast.If) and not st.orelse and len(st.body) == 1 and isinstance(st.body[0], ast.Return):
+            r = st.body[0].value
+            ok = (r is None) if not returns_none_pair else (isinstance(r, ast.Tuple) and len(r.elts) == 2 and all(isinstance(e, ast.Constant) and e.value is None for e in r.elts))
+            if ok:
+                names = set(x.id for x in ast.walk(st.test) if isinstance(x, ast.Name))
+                if not set(must_mention) <= names:
+                    # e.g. the guard was split into several ifs: not the shape this reading understands
+                    fail(st, '%s: the first early return tests %s, expected a single guard over %s' % (fn.name, sorted(names), sorted(must_mention)))
+                return st.test, body[:i]
+    fail(fn, 'no early-return guard found in %s' % fn.name)
+
+
+def check_bounds_prelude(fn, pre):
+    """the statements before the guard must be exactly: start = self._slice_val_to_idx(start, 0); end = self._slice_val_to_idx(end, len(self._s))"""
+    want = ['start = self._slice_val_to_idx(start, 0)', 'end = self._slice_val_to_idx(end, len(self._s))']
+    got = [ast.unparse(x) for x in pre]
+    if got != want:
+        fail(fn, '%s: statements before the range guard are %s' % (fn.name, got))
+
+
+def tr_guards(tree):
+    out = []
+    fa = find_method(tree, 'AnsiString', 'apply_formatting')
+    t, pre = find_guard(fa, must_mention=('settings', 'start', 'end')); check_bounds_prelude(fa, pre)
+    env = {'truth:settings': 'settings_truthy', 'start': 'start', 'end': 'en', 'self._s': '_', 'len(self._s)': 'len'}
+    out.append('Definition gen_apply_skip (settings_truthy : bool) (start en len : Z) : bool :=\n  %s.\n' % Tr(env, {}).bex(t))
+    fr = find_method(tree, 'AnsiString', 'remove_formatting')
+    t, pre = find_guard(fr, must_mention=('settings', 'start', 'end')); check_bounds_prelude(fr, pre)
+    env = {'truth:settings': 'settings_truthy', 'none:settings': 'settings_none', 'start': 'start', 'end': 'en', 'self._s': '_', 'len(self._s)': 'len'}
+    out.append('Definition gen_remove_skip (settings_none settings_truthy : bool) (start en len : Z) : bool :=\n  %s.\n' % Tr(env, {}).bex(t))
+    ff = find_method(tree, 'AnsiString', 'find_settings')
+    t, pre = find_guard(ff, returns_none_pair=True); check_bounds_prelude(ff, pre)
+    out.append('Definition gen_find_invalid (start en : Z) : bool :=\n  %s.\n' % Tr({'start': 'start', 'end': 'en'}, {}).bex(t))
+    return '\n'.join(out)
+
+
+def tr_center(tree):
+    """center: how the fill is divided (left_spaces, right_spaces as functions of num = width - len)"""
+    fn = find_method(tree, 'AnsiString', 'center')
+    for st in ast.walk(fn):
+        if isinstance(st, ast.If) and ast.unparse(st.test) == 'num > 0':
+            a = [x for x in st.body if isinstance(x, ast.Assign) and isinstance(x.targets[0], ast.Name)]
+            names = [x.targets[0].id for x in a[:2]]
+            if names != ['left_spaces', 'right_spaces']:
+                fail(st, 'center: expected left_spaces, right_spaces first in the num > 0 branch')
+            l = Tr({'num': 'num'}, {}).ex(a[0].value)
+            r = Tr({'num': 'num', 'left_spaces': 'left_spaces'}, {}).ex(a[1].value)
+            return 'Definition gen_center_split (num : Z) : Z * Z :=\n  let left_spaces := %s in (left_spaces, %s).\n' % (l, r)
+    fail(fn, 'center: no `if num > 0` branch')
+
+
 # the reference form of each function: what the translation of the pinned source looks like.  When the source of a
 # function has a shape the translator does not know, this text is emitted instead, the obligation in Proofs/GenFns*.v
 # then says nothing about the code for THAT function, and the tie is the enumerated function-level correspondence
@@ -254,6 +328,12 @@ REFERENCE = {
            '  ((Z.shiftr (Z.land v (16711680)) (16)), (Z.shiftr (Z.land v (65280)) (8)), (Z.land v (255))).\n\n'
            'Definition gen_rgb_clamp (r g b : Z) : Z * Z * Z :=\n'
            '  ((Z.min (255) (Z.max (0) r)), (Z.min (255) (Z.max (0) g)), (Z.min (255) (Z.max (0) b))).\n',
+    'guards': 'Definition gen_apply_skip (settings_truthy : bool) (start en len : Z) : bool :=\n'
+              '  ((negb settings_truthy) || (len <=? start) || (en <=? start)).\n\n'
+              'Definition gen_remove_skip (settings_none settings_truthy : bool) (start en len : Z) : bool :=\n'
+              '  (((negb settings_none) && (negb settings_truthy)) || (len <=? start) || (en <=? start)).\n\n'
+              'Definition gen_find_invalid (start en : Z) : bool :=\n  (en <? start).\n',
+    'center': 'Definition gen_center_split (num : Z) : Z * Z :=\n  let left_spaces := (Z.div num (2)) in (left_spaces, (num - left_spaces)).\n',
 }
 
 
@@ -272,7 +352,8 @@ def main():
                 consts['ansi_term_ord_range'] = tuple(e.value for e in n.value.elts)
     parts, done, skipped = [], [], []
     for key, fn in (('slice_val_to_idx', lambda: tr_slice_val(t1)), ('valid', lambda: tr_valid(t2, consts)),
-                    ('seq_starts_with', lambda: tr_starts_with(t2)), ('rgb', lambda: tr_rgb(t2))):
+                    ('seq_starts_with', lambda: tr_starts_with(t2)), ('rgb', lambda: tr_rgb(t2)),
+                    ('guards', lambda: tr_guards(t1)), ('center', lambda: tr_center(t1))):
         try:
             parts.append(fn())
             done.append(key)
